@@ -181,14 +181,62 @@ func init() {
 				continue
 			}
 			fk := funcKey(f)
-			ts := a.find(w, f)
+			// the transition may sit in f itself or in a same-package helper f calls (extract-helper is transparent):
+			// its necessary conditions are those of the call site in f plus those inside the helper, in f's terms
+			type site struct {
+				at  ssa.Instruction
+				nec []string
+			}
+			var ts []site
+			var walk func(g *ssa.Function, outer []string, sub map[ssa.Value]string, d int, seen map[*ssa.Function]bool)
+			walk = func(g *ssa.Function, outer []string, sub map[ssa.Value]string, d int, seen map[*ssa.Function]bool) {
+				saved := w.subst
+				w.subst = sub
+				found := a.find(w, g)
+				var necs [][]string
+				for _, t := range found {
+					necs = append(necs, w.necessaryAtoms(g, t))
+				}
+				w.subst = saved
+				for i, t := range found {
+					ts = append(ts, site{t, append(append([]string{}, outer...), necs[i]...)})
+				}
+				if d <= 0 {
+					return
+				}
+				for _, call := range callInstrs(g) {
+					if _, isCall := call.(*ssa.Call); !isCall {
+						continue
+					}
+					h := staticCallee(call)
+					if h == nil || h.Blocks == nil || seen[h] || pkgPathOf(h) != pkgPathOf(f) || len(call.Common().Args) != len(h.Params) {
+						continue
+					}
+					// only helpers that are not transitions of their own (the enter* functions are separate anchors)
+					if strings.HasPrefix(h.Name(), "enter") || strings.HasPrefix(h.Name(), "handle") || strings.HasPrefix(h.Name(), "try") || strings.HasPrefix(h.Name(), "finalize") || strings.HasPrefix(h.Name(), "update") || strings.HasPrefix(h.Name(), "sign") {
+						continue
+					}
+					w.subst = sub
+					nsub := map[ssa.Value]string{}
+					for i, p := range h.Params {
+						nsub[p] = w.expr(call.Common().Args[i])
+					}
+					cn := w.necessaryAtoms(g, call)
+					w.subst = saved
+					seen[h] = true
+					walk(h, append(append([]string{}, outer...), cn...), nsub, d-1, seen)
+					delete(seen, h)
+				}
+			}
+			walk(f, nil, nil, 1, map[*ssa.Function]bool{f: true})
 			c.Check(len(ts) >= a.min, fk+" :: "+a.name+" :: present", w.pos(f.Pos()), fmt.Sprintf("%d sites", len(ts)), fmt.Sprintf("transition not found (%d sites, expected at least %d): the node can no longer make this step", len(ts), a.min))
 			allowed := map[string]bool{}
 			for _, s := range a.allowed {
 				allowed[s] = true
 			}
-			for _, t := range ts {
-				nec := w.necessaryAtoms(f, t)
+			for _, tsite := range ts {
+				t := tsite.at
+				nec := uniq(tsite.nec)
 				if dump {
 					fmt.Printf("C03DUMP %s :: %s @%s\n", fk, a.name, w.ipos(t))
 					for _, s := range nec {
